@@ -428,6 +428,13 @@ class Evaluator:
 evaluate = Evaluator()
 
 
+def _expect(node, value, types, what):
+    """Raise a syntax error unless the evaluated operand has the right kind."""
+    if not isinstance(value, types):
+        raise node.location.syntax_error(f"Expected {what}")
+    return value
+
+
 @evaluate.register_action("_ ( X ) _")
 def make_group(node, _1, element, _2, context):
     element = evaluate(element, context=context)
@@ -438,6 +445,8 @@ def make_group(node, _1, element, _2, context):
 def make_nested_imm(node, parent, child, context):
     parent = evaluate(parent, context=context)
     child = evaluate(child, context=context)
+    _expect(node, parent, (Element, Call), "a function on the left of >")
+    _expect(node, child, (Element, Call), "a variable or call on the right of >")
     parent = _guarantee_call(parent, context=context)
     if isinstance(child, Element):
         child = child.with_focus()
@@ -482,20 +491,21 @@ def make_class(node, element, tag, context):
 @evaluate.register_action("_ ! X")
 def make_focus(node, _, element, context):
     element = evaluate(element, context=context)
-    assert isinstance(element, Element)
+    _expect(node, element, Element, "a variable after !")
     return element.with_focus()
 
 
 @evaluate.register_action("_ !! X")
 def make_double_focus(node, _, element, context):
     element = evaluate(element, context=context)
-    assert isinstance(element, Element)
+    _expect(node, element, Element, "a variable after !!")
     return element.clone(tags=frozenset({2}))
 
 
 @evaluate.register_action("_ $ X")
 def make_dollar(node, _, name, context):
     name = evaluate(name, context=context)
+    _expect(node, name, Element, "a name after $")
     return Element(name=None, category=None, capture=name.name, tags=name.tags)
 
 
@@ -505,6 +515,7 @@ def make_call_capture(node, fn, names, _, context):
     fn = evaluate(fn, context=context)
     names = evaluate(names, context="incall") if names else []
     names = names if isinstance(names, list) else [names]
+    _expect(node, fn, (Element, Call), "a function before (")
     fn = _guarantee_call(fn, context=context)
     caps = tuple(name for name in names if isinstance(name, Element))
     children = tuple(name for name in names if isinstance(name, Call))
@@ -526,6 +537,8 @@ def make_sequence(node, a, b, context):
 def make_as(node, element, name, context):
     element = evaluate(element, context=context)
     name = evaluate(name, context=context)
+    _expect(node, element, (Element, Call), "a variable or call before 'as'")
+    _expect(node, name, Element, "a name after 'as'")
     if isinstance(element, Element):
         return element.clone(capture=name.name, tags=element.tags | name.tags)
     else:
@@ -541,6 +554,7 @@ def make_as(node, element, name, context):
 @evaluate.register_action("X = X")
 def make_equals(node, element, value, context, matchfn=False):
     element = evaluate(element, context=context)
+    _expect(node, element, (Element, Call), "a variable or call before = or ~")
     value = value_evaluate(value)
     if matchfn:
         value = VCall(MatchFunction, (value,))
@@ -734,7 +748,7 @@ def vmake_call(node, fn, args, _, context):
 @value_evaluate.register_action("X = X")
 def vmake_keyword(node, key, value, context):
     key = value_evaluate(key)
-    assert isinstance(key, VSymbol)
+    _expect(node, key, VSymbol, "a keyword name before =")
     value = value_evaluate(value)
     return VKeyword(key, value)
 
